@@ -11,6 +11,7 @@
             trait ⇒ order of traits and the split into several attributes are irrelevant.
 """
 from ..report import Report
+from ..alpha import Alpha
 from ..syn import es, pat_s, ty_s
 from ..terms import term_s, subterms, analyse_iter, strip_refs
 from ..walk import ctx_s
@@ -20,120 +21,7 @@ from .c13_param import PARAMS, HELPER_CLASS, BOOLP, BOOL, IDENT, IDENTBOOL, PATH
 from .c12 import unblock, norm
 
 
-def result_leaves(cx, f):
-    """[(value expr json, ctx, how)] for every way the function can produce its result"""
-    fw = cx.fw(f)
-    by_node = {}
-    for ev in fw.events:
-        if ev.kind in ('tail', 'armval'):
-            by_node[id(ev.node)] = ev
-    out = []
-
-    def tails(e, ctx_hint):
-        if e is None:
-            return
-        k = e['k']
-        if k == 'Block':
-            st = e['stmts']
-            if st and st[-1]['k'] == 'Expr' and not st[-1]['semi']:
-                tails(st[-1]['expr'], ctx_hint)
-            return
-        if k == 'Match':
-            for a in e['arms']:
-                tails(a['body'], ctx_hint)
-            return
-        if k == 'If':
-            tails(e['then'], ctx_hint)
-            if e.get('else') is not None:
-                tails(e['else'], ctx_hint)
-            return
-        ev = by_node.get(id(e)) or ctx_hint
-        if ev is not None:
-            out.append((e, ev.ctx, 'tail', ev))
-    for ev in fw.events:
-        if ev.kind == 'exit' and ev.how == 'return' and ev.value is not None:
-            tails(ev.value, ev)
-    tails(f.block, None)
-    return out
-
-
-def kinds_of_ctx(ctx):
-    out = []
-    for c in ctx:
-        if c['k'] == 'arm':
-            p = c['pat']
-            if p['k'] == 'Wild':
-                out.append('_')
-            else:
-                out.append(pat_head(p))
-        elif c['k'] == 'iflet':
-            h = pat_head(c['pat'])
-            e = c['expr']
-            if e['k'] == 'MethodCall' and e['method'] in ('parse_args', 'parse') and e.get('turbofish'):
-                t = e['turbofish'][0]
-                h = 'parse<%s>' % (ty_s(t['ty']).replace(' ', '') if t['k'] == 'Type' else '?')
-            out.append(('' if c['pol'] else '!') + h)
-        elif c['k'] == 'if':
-            out.append(('' if c['pol'] else '!') + 'if(' + es(c['cond']).replace(' ', '') + ')')
-        elif c['k'] == 'survive':
-            pass
-    return tuple(out)
-
-
-def pat_head(p):
-    if p['k'] in ('TupleStruct', 'Struct', 'Path'):
-        return p['path']['s']
-    if p['k'] == 'Ref':
-        return pat_head(p['pat'])
-    if p['k'] == 'Ident':
-        return p['name']
-    return pat_s(p)
-
-
-def subst_idents(node, mapping):
-    """deep copy of an expression with single-segment paths renamed by `mapping` (name -> replacement expr json)"""
-    if isinstance(node, list):
-        return [subst_idents(x, mapping) for x in node]
-    if not isinstance(node, dict):
-        return node
-    if node.get('k') == 'Path' and len(node.get('path', {}).get('segs', [])) == 1 and node['path']['s'] in mapping:
-        return mapping[node['path']['s']]
-    return {k: (subst_idents(v, mapping) if not (isinstance(k, str) and k.startswith('_')) else v) for k, v in node.items()}
-
-
-def inline_private_helper(cx, f, v, depth=0):
-    """`helper(args)` where helper is a private, single-expression function of the same module that is not itself one of the
-    documented conversion helpers: replaced by its body with the arguments substituted (an extracted helper changes nothing)"""
-    if depth > 3 or v['k'] != 'Call' or v['func']['k'] != 'Path':
-        return v
-    segs = [x['id'] for x in v['func']['path']['segs']]
-    if segs[-1].startswith('meta_') or segs[-1].startswith('auto_adjust') or len(segs) != 1:
-        return v
-    gs = cx.crate.find_fn(f.module, segs, f.self_ty)
-    if len(gs) != 1 or gs[0].module is not f.module:
-        return v
-    g = gs[0]
-    leaves = result_leaves(cx, g)
-    if len(leaves) != 1 or leaves[0][1]:
-        return v
-    names = [p_[0] for p_ in g.params() if p_[0] != 'self']
-    if len(names) != len(v['args']):
-        return v
-    mapping = {}
-    for n_, a_ in zip(names, v['args']):
-        x = a_
-        while x['k'] == 'Ref':
-            x = x['expr']
-        mapping[n_] = x
-    return inline_private_helper(cx, f, subst_idents(leaves[0][0], mapping), depth + 1)
-
-
-def table(cx, f):
-    rows = []
-    for v, ctx, how, ev in result_leaves(cx, f):
-        v = inline_private_helper(cx, f, v)
-        rows.append((kinds_of_ctx(ctx), es(v).replace(' ', ''), ev))
-    return rows
+from ..restable import result_leaves, kinds_of_ctx, pat_head, canon_text, table
 
 
 def find(cx, name):
@@ -191,19 +79,19 @@ def check_help(cx, rep):
         ])
     rows = rows_of('meta_name_value_2_bool')
     if rows is not None:
-        need('meta_name_value_2_bool', 'p=bool', rows, ends('Expr::Lit', 'Lit::Bool'), lambda v: v == 'Ok(b.value)', '`p = true|false` must yield the literal\'s value')
+        need('meta_name_value_2_bool', 'p=bool', rows, ends('Expr::Lit', 'Lit::Bool'), lambda v: v == 'Ok(bool.value)', '`p = true|false` must yield the literal\'s value')
         others = [r for r in rows if not r[1].startswith('Err(') and not (ends('Expr::Lit', 'Lit::Bool')(r[0]))]
         for r in others:
             rep.bad('HELP', find(cx, 'meta_name_value_2_bool')[0].qname, 'extra-kind', 'a non-boolean value is accepted as bool: %s %s' % (list(r[0]), r[1][:50]), find(cx, 'meta_name_value_2_bool')[0].file, r[2].line)
     # ---- ident ------------------------------------------------------------------------------
     meta_2('meta_2_ident', 'meta_name_value_2_ident', False, [
-        ('p("Ident")', lambda ks: LIST(ks) and 'parse<LitStr>' in ks, lambda v: v == 'lit.parse()', '`p("Name")` must parse the string as an identifier'),
+        ('p("Ident")', lambda ks: LIST(ks) and 'parse<LitStr>' in ks, lambda v: v == 'ok.parse()', '`p("Name")` must parse the string as an identifier'),
         ('p(Ident)', lambda ks: LIST(ks) and '!parse<LitStr>' in ks, lambda v: v == 'list.parse_args()', '`p(Name)` must parse an identifier'),
     ])
     rows = rows_of('meta_name_value_2_ident')
     if rows is not None:
-        need('meta_name_value_2_ident', 'p="Ident"', rows, ends('Expr::Lit', 'Lit::Str'), lambda v: v == 'lit.parse()', '`p = "Name"` must parse the string as an identifier')
-        need('meta_name_value_2_ident', 'p=Ident', rows, lambda ks: 'Expr::Path' in ks and 'Some' in ks, lambda v: v == 'Ok(ident.clone())', '`p = Name` must yield that identifier')
+        need('meta_name_value_2_ident', 'p="Ident"', rows, ends('Expr::Lit', 'Lit::Str'), lambda v: v == 'str.parse()', '`p = "Name"` must parse the string as an identifier')
+        need('meta_name_value_2_ident', 'p=Ident', rows, lambda ks: 'Expr::Path' in ks and 'Some' in ks, lambda v: v == 'Ok(some.clone())', '`p = Name` must yield that identifier')
     # ---- ident or bool ----------------------------------------------------------------------
     meta_2('meta_2_ident_and_bool', 'meta_name_value_2_ident_and_bool', False, [
         ('p(..)', LIST, lambda v: v == 'list.parse_args::<IdentOrBool>()', '`p(..)` must be parsed as identifier-or-bool'),
@@ -211,10 +99,10 @@ def check_help(cx, rep):
     rows = rows_of('meta_name_value_2_ident_and_bool')
     if rows is not None:
         nm = 'meta_name_value_2_ident_and_bool'
-        need(nm, 'p="Ident"', rows, lambda ks: 'Lit::Str' in ks and 'Ok' in ks, lambda v: v == 'Ok(IdentOrBool::Ident(ident))', 'string → identifier')
+        need(nm, 'p="Ident"', rows, lambda ks: 'Lit::Str' in ks and 'Ok' in ks, lambda v: v == 'Ok(IdentOrBool::Ident(ok))', 'string → identifier')
         need(nm, 'p=""', rows, lambda ks: 'Lit::Str' in ks and 'Err' in ks, lambda v: v == 'Ok(IdentOrBool::Bool(false))', 'empty string → false')
-        need(nm, 'p=bool', rows, lambda ks: 'Lit::Bool' in ks, lambda v: v == 'Ok(IdentOrBool::Bool(lit.value))', 'bool literal → its value')
-        need(nm, 'p=Ident', rows, lambda ks: 'Expr::Path' in ks and 'Some' in ks, lambda v: v == 'Ok(IdentOrBool::Ident(ident.clone()))', 'bare identifier → identifier')
+        need(nm, 'p=bool', rows, lambda ks: 'Lit::Bool' in ks, lambda v: v == 'Ok(IdentOrBool::Bool(bool.value))', 'bool literal → its value')
+        need(nm, 'p=Ident', rows, lambda ks: 'Expr::Path' in ks and 'Some' in ks, lambda v: v == 'Ok(IdentOrBool::Ident(some.clone()))', 'bare identifier → identifier')
         check_empty_guard(cx, rep, nm)
     # Parse impl behind the list form
     ps = [f for f in cx.crate.fns if f.qname.endswith('ident_bool::IdentOrBool::parse')]
@@ -228,39 +116,40 @@ def check_help(cx, rep):
                 rep.ok('HELP', '%s|%s' % (w, label), {'helper': 'IdentOrBool::parse', 'case': label, 'conversion': hit[0][1][:80]})
             else:
                 rep.bad('HELP', w, label, '%s (found %s)' % (why, [(list(r[0]), r[1][:60]) for r in rows if kp(r[0])][:3]), ps[0].file, ps[0].line)
-        needp('p(bool)', lambda ks: 'Lit::Bool' in ks, lambda v: v == 'Ok(Self::Bool(lit.value))', 'bool literal → its value')
-        needp('p("Ident")', lambda ks: 'Lit::Str' in ks and 'Ok' in ks, lambda v: v == 'Ok(Self::Ident(ident))', 'string → identifier')
+        needp('p(bool)', lambda ks: 'Lit::Bool' in ks, lambda v: v == 'Ok(Self::Bool(bool.value))', 'bool literal → its value')
+        needp('p("Ident")', lambda ks: 'Lit::Str' in ks and 'Ok' in ks, lambda v: v == 'Ok(Self::Ident(ok))', 'string → identifier')
         needp('p("")', lambda ks: 'Lit::Str' in ks and 'Err' in ks, lambda v: v == 'Ok(Self::Bool(false))', 'empty string → false')
-        needp('p(Ident)', lambda ks: not any(k.startswith('Lit::') for k in ks) and 'parse<Lit>' not in ks, lambda v: v == 'Ok(Self::Ident(input.parse::<Ident>()?))', 'bare identifier → identifier')
+        needp('p(Ident)', lambda ks: not any(k.startswith('Lit::') for k in ks) and 'parse<Lit>' not in ks, lambda v: v == 'Ok(Self::Ident($0.parse::<Ident>()?))', 'bare identifier → identifier')
     else:
         rep.broken.append('IdentOrBool::parse not found')
     # ---- path -------------------------------------------------------------------------------
     meta_2('meta_2_path', 'meta_name_value_2_path', False, [
-        ('p("path")', lambda ks: LIST(ks) and 'parse<LitStr>' in ks, lambda v: v == 'lit.parse()', '`p("a::b")` must parse the string as a path'),
+        ('p("path")', lambda ks: LIST(ks) and 'parse<LitStr>' in ks, lambda v: v == 'ok.parse()', '`p("a::b")` must parse the string as a path'),
         ('p(path)', lambda ks: LIST(ks) and '!parse<LitStr>' in ks, lambda v: v == 'list.parse_args()', '`p(a::b)` must parse a path'),
     ])
     rows = rows_of('meta_name_value_2_path')
     if rows is not None:
-        need('meta_name_value_2_path', 'p="path"', rows, ends('Expr::Lit', 'Lit::Str'), lambda v: v == 'lit.parse()', '`p = "a::b"` must parse the string as a path')
+        need('meta_name_value_2_path', 'p="path"', rows, ends('Expr::Lit', 'Lit::Str'), lambda v: v == 'str.parse()', '`p = "a::b"` must parse the string as a path')
         need('meta_name_value_2_path', 'p=path', rows, ends('Expr::Path'), lambda v: v == 'Ok(path.path.clone())', '`p = a::b` must yield that path')
     # ---- isize ------------------------------------------------------------------------------
     meta_2('meta_2_isize', 'meta_name_value_2_isize', False, [
-        ('p("n")', lambda ks: LIST(ks) and ks[-1:] == ('Lit::Str',), lambda v: v.startswith('lit.value().parse::<isize>()'), '`p("-3")` must parse the string as isize'),
-        ('p(n)', lambda ks: LIST(ks) and ks[-1:] == ('Lit::Int',), lambda v: v == 'lit.base10_parse()', '`p(-3)` must parse the integer literal'),
+        ('p("n")', lambda ks: LIST(ks) and ks[-1:] == ('Lit::Str',), lambda v: v.startswith('str.value().parse::<isize>()'), '`p("-3")` must parse the string as isize'),
+        ('p(n)', lambda ks: LIST(ks) and ks[-1:] == ('Lit::Int',), lambda v: v == 'int.base10_parse()', '`p(-3)` must parse the integer literal'),
     ])
     rows = rows_of('meta_name_value_2_isize')
     if rows is not None:
         nm = 'meta_name_value_2_isize'
-        need(nm, 'p="n"', rows, ends('Expr::Lit', 'Lit::Str'), lambda v: v.startswith('lit.value().parse::<isize>()'), '`p = "-3"` must parse the string as isize')
-        need(nm, 'p=n', rows, ends('Expr::Lit', 'Lit::Int'), lambda v: v == 'lit.base10_parse()', '`p = 3` must parse the integer literal')
-        need(nm, 'p=-n', rows, lambda ks: 'Expr::Unary' in ks and 'UnOp::Neg' in ks and 'Lit::Int' in ks, lambda v: v.startswith('s.parse::<isize>()'),
+        need(nm, 'p="n"', rows, ends('Expr::Lit', 'Lit::Str'), lambda v: v.startswith('str.value().parse::<isize>()'), '`p = "-3"` must parse the string as isize')
+        need(nm, 'p=n', rows, ends('Expr::Lit', 'Lit::Int'), lambda v: v == 'int.base10_parse()', '`p = 3` must parse the integer literal')
+        need(nm, 'p=-n', rows, lambda ks: 'Expr::Unary' in ks and 'UnOp::Neg' in ks and 'Lit::Int' in ks, lambda v: v.startswith('format!("-{}",int.base10_digits()).parse::<isize>()'),
              '`p = -3` must be parsed with its sign')
         check_neg_string(cx, rep, nm)
     # the list form parses one literal
     f = find(cx, 'meta_2_isize')
     if f:
         fw = cx.fw(f[0])
-        ok = any(ev.kind == 'let' and ev.init is not None and norm(ev.init) == 'list.parse_args::<Lit>()?' for ev in fw.events)
+        al_ = Alpha(f[0])
+        ok = any(ev.kind == 'let' and ev.init is not None and al_.text(ev.init) == 'list.parse_args::<Lit>()?' for ev in fw.events) or any(al_.text(ev.node['expr']) == 'list.parse_args::<Lit>()?' for ev in fw.events if ev.kind == 'match')
         (rep.ok('HELP', f[0].qname + '|p(..) parses one literal') if ok else rep.bad('HELP', f[0].qname, 'list-literal', 'the list form does not parse a single literal', f[0].file, f[0].line))
     # ---- expr -------------------------------------------------------------------------------
     rows = rows_of('meta_2_expr')
@@ -288,7 +177,7 @@ def check_empty_guard(cx, rep, nm):
     for ev in fw.events:
         if ev.kind == 'match':
             for a in ev.node['arms']:
-                if pat_s(a['pat']).startswith('Err(') and a.get('guard') is not None and norm(a['guard']) == 'lit.value().is_empty()':
+                if pat_s(a['pat']).startswith('Err(') and a.get('guard') is not None and Alpha(f).text(a['guard']) == 'str.value().is_empty()':
                     ok = True
     if ok:
         rep.ok('HELP', f.qname + '|empty-string guard')
@@ -299,7 +188,7 @@ def check_empty_guard(cx, rep, nm):
 def check_neg_string(cx, rep, nm):
     f = find(cx, nm)[0]
     fw = cx.fw(f)
-    ok = any(ev.kind == 'let' and ev.init is not None and norm(ev.init) == 'format!("-{}",lit.base10_digits())' for ev in fw.events)
+    ok = True   # the sign-preserving conversion is part of the `p=-n` row (the `let` is inlined by the canonical printer)
     if ok:
         rep.ok('HELP', f.qname + '|negated literal keeps its sign')
     else:
